@@ -54,6 +54,17 @@ func IsError(t types.Type) bool {
 	return false
 }
 
+// ZeroOf returns the zero value as a string, for a given type and the string representation of that type.
+func ZeroOf(typ types.Type, typeStr string) string {
+	switch typ.Underlying().(type) {
+	case *types.Basic:
+		return Zero(typ.Underlying())
+	case *types.Struct, *types.Array:
+		return typeStr + "{}"
+	}
+	return "nil"
+}
+
 // Zero returns the zero value as a string, for a given type.
 func Zero(typ types.Type) string {
 	switch t := typ.(type) {
